@@ -274,3 +274,41 @@ PROPS["C04"] = {
         {"name": "rapid", "mode": "rapid", "run": "TestC04Rapid", "checks": {"quick": 24000, "thorough": 480000}},
     ],
 }
+
+PROPS["C13"] = {
+    "level": "fault_enumeration",
+    "rule": ("Fault placements are generated, not hand-picked: a layout of good Spec files with pairwise distinct device names (so conflicts do not "
+             "blur the error rules) over 0..4 directory slots, plus file faults (syntax error, semantic error of 6 kinds, empty file, "
+             "dangling symlink = file vanished between listing and reading, symlink loop, symlink to a directory) and directory faults "
+             "(missing, a regular file, a path with a non-directory ancestor, a symlink to a directory), each directory fault inserted at "
+             "a drawn index of the directory list (before, between, after good directories); then a rapid state machine of new faults "
+             "(break a good file, add a bad file, remove a directory) and repairs (replace a bad file by valid content or remove it, turn a "
+             "faulty path into a real directory with a good file), each followed by Refresh() on the same cache. The perm unit applies "
+             "permission faults (file mode 000, directory mode 000, directory mode 444, unreadable ancestor) and scans as uid 65534 "
+             "through the vhelper binary. Oracle after every step: (1) layout.CompareView - every device of every good file resolves to "
+             "its definition and nothing else is listed; (2) GetErrors has an entry for every failing Spec-named file and none for a "
+             "good file; (3) Refresh returns an error if a Spec file is in error and nil if all directories are readable or absent and "
+             "all files valid (other directory faults leave it open); (4) GetSpecErrors agrees with GetErrors and no stale entry "
+             "survives a repair. One case = one step. Non-trivial iff a fault sits at a lower index than some good directory, or the "
+             "step is a repair; distinct = distinct (layout state, fault set)."),
+    "assumptions": ["files inside a directory that cannot be listed or stat-ed, and inside a symlinked directory, are not required to be reported (the library cannot see them)",
+                    "permission faults need root with setuid to 65534, or a non-root caller; probed at start, skipped and labelled otherwise"],
+    "manifest": {
+        "text": ("Generated enumeration of fault kinds x positions in the directory list x later repairs, with the scan executed in-process and, "
+                 "for permission faults, in an unprivileged helper process; every step is checked against the resolution model and the "
+                 "error-report rules. Not covered: I/O errors other than those provoked by file type, links and permissions."),
+        "note": "trusted: layout.Resolve; fault kinds are produced with real file-system objects (no mocks)",
+        "technique": "property-based fault enumeration: rapid state machine over fault placements and repairs, reference-model oracle; privilege-dropped helper process for permission faults",
+    },
+    "helpers": ("vhelper",),
+    "health_optional_if": {"env:permission-faults-not-effective-skipped": ["permfault:"]},
+    "health": {"quick": {"dirfault:afile/sub": 500, "dirfault:fregular": 500, "dirfault:flink": 500, "dir-fault-before-good-directory": 1000,
+                         "file-fault-before-good-directory": 1000, "filefault:dangling-link": 300, "filefault:link-loop": 300,
+                         "filefault:link-to-dir": 300, "filefault:bad-syntax": 500, "filefault:empty": 300, "after:repairFile": 1000,
+                         "after:repairDirFault": 200, "permfault:dir-mode-000": 50, "permfault:dir-mode-444": 50,
+                         "permfault:file-mode-000": 50, "permfault:unreadable-ancestor": 50}},
+    "units": [
+        {"name": "rapid", "mode": "rapid", "run": "TestC13Rapid", "checks": {"quick": 6400, "thorough": 128000}},
+        {"name": "perm", "mode": "rapid", "run": "TestC13Perm", "checks": {"quick": 1600, "thorough": 32000}},
+    ],
+}
